@@ -281,7 +281,7 @@ PROPS['C01'] = dict(
     theorems=['tie_destroy_guard', 'tie_min_gas_price_deliver', 'fact_translated_all', 'C01_touched_order_irrelevant', 'C01_commit_order_independent', 'C01_map_copy_order_independent', 'C01_deliver_ignores_node_config',
               'canon_perm', 'sorted_ext', 'setInsert_sorted', 'copy_get', 'find_perm',
               'fact_census_time_now', 'fact_census_map_range', 'fact_census_go_stmt', 'fact_census_no_rand_no_env',
-              'fact_commit_sorted', 'fact_destroy_guard_block_time', 'fact_pkg_vars', 'fact_mem_fields', 'fact_to_derefs_guarded', 'fact_key_prefixes_no_spare_capacity'],
+              'fact_commit_sorted', 'fact_destroy_guard_block_time', 'fact_pkg_vars', 'fact_mem_fields', 'fact_to_derefs_guarded', 'fact_no_append_to_shared_call_result', 'fact_key_prefixes_no_spare_capacity'],
     engines=[dict(name='reexec', test='TestEngineReexec', quick=25, thorough=120, thorough_seeds=2, no_model=True, rerun_compare=True, vest_end_delay=20)],
     rule='seeded block histories (1-8 txs per block: transfers, logging / storing / reverting contracts, creations, self-destruct fan-outs destroying 2-6 contracts that hold three denominations in ONE transaction, ERC-20 precompile call trees with a reverted frame, staking precompile delegate and transfer(), zero-value touches of a vesting account, bad nonces, Cosmos sends) executed on two fresh application instances with fixed genesis and header times, and again in a second process; compared: app hash and the marshalled ResponseFinalizeBlock without Log/Info; non-trivial = a block line; distinct by op-line hash',
     assumptions=['nondeterminism inside Cosmos-SDK, CometBFT, IAVL and go-ethereum themselves is outside the census (trusted); it is still exercised by the twin execution',
